@@ -14,6 +14,7 @@ class VClock(object):
         self.readings = 0
         self.sleeps = 0
         self.on_advance = None   # optional hook(now) called after the clock moved
+        self.horizon = None      # beyond this instant a sleeper is declared hung
 
     def time(self):
         self.readings += 1
@@ -29,6 +30,9 @@ class VClock(object):
         self.sleeps += 1
         if d and d > 0:
             self.now += d
+        if self.horizon is not None and self.now > self.horizon:
+            from .vworld import WouldBlockForever
+            raise WouldBlockForever()
         if self.on_advance:
             self.on_advance(self.now)
 
